@@ -639,6 +639,12 @@ def load_in_memory_count(crate, which="load_in_memory"):
             return False
         if not P.prove(ex, res, o, z3.BoolVal(isinstance(mp, Obj) and mp.oid == the_map.get("oid")), "the installed map is the loaded one"):
             return False
+        # the filters are re-read from the index file (a reloaded index must not keep an off-loaded / stale filter: its next dump
+        # serialises the filter it holds)
+        metas = [e for e in o.events if e[0] == "await" and e[1].endswith("read_meta")]
+        if not P.prove(ex, res, o, z3.Implies(isok, z3.BoolVal(len(metas) >= 1)),
+                       "Ok => the filter bytes were read back from the index file (read_meta)"):
+            return False
         P.cover(ex, res, o, z3.And(isok, z3.UGT(count, BV64(2))), "loaded")
         P.cover(ex, res, o, z3.And(z3.Not(isok), lok), "filters unreadable after the headers were loaded")
         return True
